@@ -52,7 +52,8 @@ def plan(tier, seed):
     specs.append({"name": "contracts", "kind": "contracts"})
     if tier == "thorough":
         specs.append({"name": "repo-tests", "kind": "repo_tests", "primitive_monitors": False})
-    return specs
+    from vlib.common import both_interpreter_modes
+    return both_interpreter_modes(specs)
 
 
 _PRF_POOL, _HASH_POOL = {}, {}
